@@ -283,6 +283,13 @@ def analyse(o, v, tag=''):
         if payload is None:
             v('C19:dhtmlx-%s' % why, None)
         else:
+            # html.parser does not implement the "script data double escaped" state of the HTML tokenizer: after "<!--" and
+            # "<script" inside a script element the next "</script>" does NOT close it, and the data never reaches gantt.parse.
+            # The rule of the HTML standard for embedding data in a script element stands in for that state machine:
+            # the data must not contain "<!--", "<script" or "</script" (any letter case).
+            mm = re.search(r'<!--|<script|</script', payload, re.I)
+            if mm:
+                v('C19:dhtmlx-script-data-contains-a-token-that-changes-the-tokenizer-state', dict(token=mm.group(0)))
             try:
                 data = json.loads(payload)
             except Exception as e:
